@@ -125,6 +125,13 @@ def witness(case, **kw):
     return d
 
 
+def check_identity(mon, obs, case, prefix="model"):
+    """What is in the model after the run are the very objects that were executed (an outline must not hand out freshly built,
+    untested row scenarios to reporters / formatters / user code that look at it after or during the run)."""
+    mon.check(prefix + ".executed_objects_stay_in_the_model", not obs.replaced_after_run,
+              lambda: witness(case, replaced=[list(x) for x in obs.replaced_after_run[:6]]))
+
+
 def check_verdict(mon, case, obs, pred, prefix="verdict"):
     """C01: reported failure <=> something went wrong in the selected part."""
     mon.check(prefix + ".no_exception_escapes", obs.escaped is None, lambda: witness(case, escaped=repr(obs.escaped)))
